@@ -86,6 +86,20 @@ CHECKS["C13"] = dict(
          "Calls that do not return are C14's subject (counted here, not judged).",
     design_ref="DESIGN.md section 5 C13")
 
+CHECKS["C14"] = dict(
+    technique="TLA+ model (Ipc.tla) of caller threads, io loop, listener/cleanup and a faulty peer, model-checked by TLC "
+              "against the monitor IpcCallAbs.tla (own answer, at most once, no call left waiting at quiescence); TLC-generated "
+              "behaviours executed by the real NetworkClient (real caller threads under a deterministic scheduler, virtual io "
+              "loop, hand-fed StreamReader); recorded histories validated by TLC (IpcCallTrace.tla)",
+    text="All interleavings of up to 3 concurrent calls (is_open check, registration, scheduling as separate steps), responses "
+         "in any order, connection loss at any point incl. inside a response frame, and caller registrations in the middle of "
+         "the listener's cleanup are explored on the model; thousands of them run on the real code; a caller still inside "
+         "call() when the virtual system is quiescent is a hang.",
+    note="Trusted: TLC, harness/vloop.py + sched.py, the FOR_ITER criterion for where a thread switch can fall inside a loop over "
+         "pending_responses. close()/server-shutdown handshakes and server-side evaluation failures (they tear the connection "
+         "down = PCut) are not separate actions yet. Bounds: 3 callers, one call each.",
+    design_ref="DESIGN.md section 5 C14")
+
 NOT_YET = {}
 
 
